@@ -11,6 +11,7 @@
 
 static const char *PROP = "C01";
 static int thorough;
+enum { K_RC_RUNS = 13, K_RC_PROBES = 14, K_RC_CLEANFAIL = 15 };
 enum { K_CELLS, K_HSFAIL, K_DELIV_UP, K_DELIV_DOWN, K_REPEATS, K_DGRAMS, K_ANSWERS, K_PARSED, K_PENDING_MAX, K_DATAFRAGS, K_REDELIV, K_CACHEHITS, K_PROBES_OK, K_SANNOTES = 20 };
 
 /* ---------------------------------------------------------------- cells */
@@ -135,7 +136,7 @@ static const wpk WL3[] = { { 1, 40, 100, 0, A_SRV }, { 1, 300, 101, 0, A_SRV }, 
 static const struct { const wpk *p; int n; } WLS[4] = { { WL0, 10 }, { WL1, 12 }, { WL2, 6 }, { WL3, 8 } };
 
 static int up_chunk_cap, down_frag_cap;
-static int WL_MUST[64];   /* bytes per upstream query / downstream fragment in this cell */
+static int WL_MUST[NS_MAXPK];   /* bytes per upstream query / downstream fragment in this cell */
 
 static void offer_workload(int wl, int64_t t0)
 {
@@ -349,6 +350,95 @@ static void mark_must(const cell *c)
 	}
 }
 
+/* ---------------------------------------------------------------- C02 recovery: burst outages, then a clean path */
+#define RC_TOTAL_S 105
+#define RC_B_S 45              /* recovery bound after the end of the fault window (DESIGN.md C02) */
+#define RC_L_S 10              /* delivery latency bound for packets offered after recovery */
+#define RC_SIZE 120
+static struct { int side; int64_t at; } OFFER[NS_MAXPK]; static int noffer;
+static int64_t burst_from, burst_to; static int burst_dir;     /* 1 = client->server, 2 = server->client, 3 = both */
+static int burst_fate(int d, int to_server)
+{
+	if (W.now >= burst_from && W.now < burst_to && ((to_server && (burst_dir & 1)) || (!to_server && (burst_dir & 2)))) { vw_dgram_free(d); ns_fatecount[F_DROP]++; return 1; }
+	return 0;
+}
+static const struct { int dir; int start_ms; int dur_ms; } BURSTS[] = {
+	{ 0, 0, 0 },
+	{ 1, 2000, 3000 }, { 2, 2000, 3000 }, { 3, 2000, 3000 }, { 1, 5300, 8000 }, { 2, 5300, 8000 }, { 3, 5300, 8000 },
+	{ 1, 2100, 14000 }, { 2, 2100, 14000 }, { 3, 2100, 14000 }, { 2, 9700, 12000 }, { 1, 9700, 12000 },
+	{ 1, 3000, 35000 }, { 2, 3000, 35000 }, { 3, 3000, 35000 }, { 2, 2500, 7400 }, { 2, 2500, 25000 }, { 1, 2500, 25000 },
+};
+#define NBURSTS ((int)(sizeof BURSTS / sizeof BURSTS[0]))
+
+static void recovery_eval(const char *desc, int bi, int64_t t0)
+{
+	int64_t win_from = (bi ? burst_to : t0) + (int64_t)(bi ? RC_B_S : 5) * 1000000, win_to = t0 + (int64_t)(RC_TOTAL_S - RC_L_S) * 1000000;
+	char bd[100];
+	if (bi) snprintf(bd, sizeof bd, "%s dropped for %.1f s from t0+%.1f s", BURSTS[bi].dir == 1 ? "all queries" : BURSTS[bi].dir == 2 ? "all answers" : "all datagrams", BURSTS[bi].dur_ms / 1e3, BURSTS[bi].start_ms / 1e3);
+	else snprintf(bd, sizeof bd, "no outage");
+	xp_count(K_RC_RUNS, 1);
+	if (!vw_alive(0) || !vw_alive(1)) { viol("program-ended-after-outage", "%s; %s: %s is no longer running at t0+%d s", desc, bd, !vw_alive(0) ? "the server" : "the client", RC_TOTAL_S); return; }
+	for (int side = 0; side <= 1; side++) {
+		int dst = side == 0 ? 1 : 0, lost = 0, dup = 0, late = 0, ooo = 0, n = 0, first = -1, lastidx = -1;
+		for (int tag = 1; tag <= noffer; tag++) {
+			if (OFFER[tag].side != side || OFFER[tag].at < win_from || OFFER[tag].at > win_to) continue;
+			n++;
+			int cnt = 0, idx = -1;
+			for (int i = 0; i < ns_nwr; i++) if (ns_wr[i].proc == dst && ns_wr[i].tag == tag) { if (!cnt) idx = i; cnt++; }
+			if (cnt == 0) { lost++; if (first < 0) first = tag; continue; }
+			if (cnt > 1) { dup++; if (first < 0) first = tag; }
+			if (ns_wr[idx].at - OFFER[tag].at > (int64_t)RC_L_S * 1000000) { late++; if (first < 0) first = tag; }
+			if (idx < lastidx) { ooo++; if (first < 0) first = tag; }
+			lastidx = idx;
+		}
+		xp_count(K_RC_PROBES, n);
+		if (lost || dup || late || ooo) {
+			if (!bi) { xp_count(K_RC_CLEANFAIL, 1); return; }     /* the cell cannot carry this load even without an outage: not judged */
+			viol(lost ? "no-recovery-after-outage" : dup ? "packet-repeated-after-recovery" : late ? "late-delivery-after-recovery" : "reordered-after-recovery",
+			     "%s; %s; path clean afterwards: of %d packets offered on the %s tun between %d s after the outage and the end, %d never arrived, %d arrived twice, %d later than %d s, %d out of order (first: packet offered at t0+%.1f s)",
+			     desc, bd, n, side ? "client" : "server", RC_B_S, lost, dup, late, RC_L_S, ooo, (OFFER[first].at - t0) / 1e6);
+		}
+	}
+	xp_outcome(0xC0200000u ^ ((uint64_t)bi << 8) ^ (uint64_t)ns_nwr);
+}
+
+static void run_recovery_cell(const cell *c, const char *desc)
+{
+	unsigned char p[400];
+	vw_run_until(W.now + 50000);
+	int64_t t0 = W.now;
+	noffer = 0;
+	for (int i = 0; i < RC_TOTAL_S; i++)
+		for (int side = 0; side <= 1; side++) {
+			int tag = ++noffer;
+			int64_t at = t0 + 100000 + (int64_t)i * 1000000 + side * 437000;
+			int n = ns_mkpkt(p, RC_SIZE, side ? A_SRV : A_CLA, tag, 0);
+			OFFER[tag].side = side; OFFER[tag].at = at;
+			vw_tun_offer_at(side ? ns_cli_tun[1] : ns_srv_tun, at, p, n, tag);
+		}
+	ns_extra_fate = burst_fate;
+	int clean_ok = 1;
+	for (int bi = 0; bi < NBURSTS; bi++) {
+		if (bi && !clean_ok) break;
+		if (xp_expired()) { __atomic_fetch_add(&XS->incomplete, 1, __ATOMIC_RELAXED); break; }
+		if (bi == 0) {
+			/* the baseline without an outage runs in a child too, so that the parent keeps the booted state */
+			long before = XS->counters[K_RC_CLEANFAIL];
+			if (xp_fork_wait() == 0) { burst_dir = 0; burst_from = burst_to = 0; run_to_horizon(t0 + (int64_t)RC_TOTAL_S * 1000000, 2000000); recovery_eval(desc, 0, t0); __atomic_fetch_add(&XS->execs, 1, __ATOMIC_RELAXED); xp_child_exit(); }
+			if (XS->counters[K_RC_CLEANFAIL] != before) { clean_ok = 0; xp_sample("recovery: %s cannot carry a 120-byte packet per second each way even without an outage; cell not judged", desc); }
+			continue;
+		}
+		if (xp_fork_wait() != 0) continue;
+		XC.path[0].cp = 0; XC.path[0].alt = bi; XC.npath = 1;
+		burst_dir = BURSTS[bi].dir; burst_from = t0 + (int64_t)BURSTS[bi].start_ms * 1000; burst_to = burst_from + (int64_t)BURSTS[bi].dur_ms * 1000;
+		run_to_horizon(t0 + (int64_t)RC_TOTAL_S * 1000000, 2000000);
+		recovery_eval(desc, bi, t0);
+		__atomic_fetch_add(&XS->execs, 1, __ATOMIC_RELAXED);
+		xp_child_exit();
+	}
+	(void)c;
+}
+
 static void run_cell(int job)
 {
 	const cell *c = &CELLS[job];
@@ -368,6 +458,30 @@ static void run_cell(int job)
 		xp_count(K_HSFAIL, 1);
 		xp_outcome(0xDEAD0000u + (uint64_t)job);
 		xp_sample("handshake did not complete: %s (result %d)", desc, ns_hs_result[1]);
+		xp_leaf();
+		return;
+	}
+	if (c->wl == 4) {
+		if (XC.replay) {
+			/* replay of one recorded outage: same preparation, no fork */
+			unsigned char p[400];
+			int bi = XC.npath ? XC.path[0].alt : 0;
+			vw_run_until(W.now + 50000);
+			int64_t t0 = W.now;
+			noffer = 0;
+			for (int i = 0; i < RC_TOTAL_S; i++) for (int side = 0; side <= 1; side++) {
+				int tag = ++noffer; int64_t at = t0 + 100000 + (int64_t)i * 1000000 + side * 437000;
+				int n = ns_mkpkt(p, RC_SIZE, side ? A_SRV : A_CLA, tag, 0);
+				OFFER[tag].side = side; OFFER[tag].at = at;
+				vw_tun_offer_at(side ? ns_cli_tun[1] : ns_srv_tun, at, p, n, tag);
+			}
+			ns_extra_fate = burst_fate;
+			burst_dir = BURSTS[bi].dir; burst_from = t0 + (int64_t)BURSTS[bi].start_ms * 1000; burst_to = burst_from + (int64_t)BURSTS[bi].dur_ms * 1000;
+			run_to_horizon(t0 + (int64_t)RC_TOTAL_S * 1000000, 2000000);
+			recovery_eval(desc, bi, t0);
+			return;
+		}
+		run_recovery_cell(c, desc);
 		xp_leaf();
 		return;
 	}
@@ -422,6 +536,9 @@ int main(int argc, char **argv)
 	if (!strcmp(PROP, "C02")) {
 		for (int lat = 0; lat < (thorough ? 6 : 3); lat++) cells_full(3, lat);
 		PHASE(0);
+		/* recovery after burst outages: pairwise subset (thorough: also at 30 ms latency) */
+		cells_pairwise(4, 0); if (thorough) cells_pairwise(4, 2);
+		PHASE(0);
 	} else {
 		cells_full(0, 0); PHASE(0);
 		cells_pairwise(0, 0); cells_pairwise(1, 2); PHASE(1);
@@ -446,10 +563,10 @@ int main(int argc, char **argv)
 		xp_run_jobs(cnt, runner, a.workers);
 		XS->counters[16 + p] = XS->execs;
 	}
-	char extra[400];
-	snprintf(extra, sizeof extra, "\"cells\":%ld,\"handshake_failed_cells\":%ld,\"delivered_up\":%ld,\"delivered_down\":%ld,\"repeats\":%ld,\"datagrams\":%ld,\"answers\":%ld,\"strictly_parsed\":%ld,\"max_pending\":%ld,\"data_fragments\":%ld,\"sanitizer_notes\":%ld,\"phases\":%d",
+	char extra[700];
+	snprintf(extra, sizeof extra, "\"cells\":%ld,\"handshake_failed_cells\":%ld,\"delivered_up\":%ld,\"delivered_down\":%ld,\"repeats\":%ld,\"datagrams\":%ld,\"answers\":%ld,\"strictly_parsed\":%ld,\"max_pending\":%ld,\"data_fragments\":%ld,\"sanitizer_notes\":%ld,\"recovery_runs\":%ld,\"recovery_probes_checked\":%ld,\"recovery_cells_not_judged\":%ld,\"phases\":%d",
 		 XS->counters[K_CELLS], XS->counters[K_HSFAIL], XS->counters[K_DELIV_UP], XS->counters[K_DELIV_DOWN], XS->counters[K_REPEATS], XS->counters[K_DGRAMS], XS->counters[K_ANSWERS],
-		 XS->counters[K_PARSED], XS->counters[K_PENDING_MAX], XS->counters[K_DATAFRAGS], XS->counters[K_SANNOTES], nph);
+		 XS->counters[K_PARSED], XS->counters[K_PENDING_MAX], XS->counters[K_DATAFRAGS], XS->counters[K_SANNOTES], XS->counters[K_RC_RUNS], XS->counters[K_RC_PROBES], XS->counters[K_RC_CLEANFAIL], nph);
 	xp_print_stats(extra);
 	return 0;
 }
